@@ -15,6 +15,7 @@
 package admin
 
 import (
+	"context"
 	"fmt"
 	"net"
 	"net/http"
@@ -93,9 +94,13 @@ func (s *Server) tryListen(addr string, portInUseRetry bool) (net.Listener, erro
 
 // Stop stop the server
 func (s *Server) Stop() {
-	switch err := s.hs.Shutdown(nil); err {
+	// A nil context is dereferenced as soon as Shutdown has to wait for a connection that is not idle.
+	ctx, cancel := context.WithTimeout(context.Background(), time.Second*2)
+	defer cancel()
+	switch err := s.hs.Shutdown(ctx); err {
 	case nil:
 	default:
 		logger.Warnf("Failed to stop HTTP server, error: %s", err)
+		s.hs.Close()
 	}
 }
